@@ -360,7 +360,12 @@ def classify(term, e, q):
             inner = q.vec_elem(s[2], e)
             return classify(term.base, inner, q)
         if s[0] == "sl":
-            return classify(term.base, s[2] + e, q)
+            c = classify(term.base, s[2] + e, q)
+            if c is not None and c.kind == "at":
+                # a sub-stretch of a stretch: its own first / one-past-last positions
+                c0 = classify(term.base, s[2], q)
+                return Cls("at", c.pos, None, c0.pos, c0.pos + term.shape[0])
+            return c
         return None
     if isinstance(term, Tile):
         b = term.base
@@ -850,6 +855,114 @@ def rule_in_sample(ctx, repo):
            "distance between the moved cutoff and the predicted position")
 
 
+def rule_moving_cutoff(ctx, repo):
+    """R4 (continued): the in-sample predictions rely on ``update`` moving the cutoff to the end of the batch it is
+    given (possibly *backwards*), and on ``_predict_moving_cutoff`` handing over the training part of each split."""
+    cls = repo.cls(NAIVE + ":NaiveForecaster")
+    # (1) _update_predict_single(batch, fh): when _predict runs, the cutoff is the last label of the batch
+    hit = repo.lookup_method(cls, "_update_predict_single")
+    if hit is None:
+        raise AnalysisError("NaiveForecaster has no _update_predict_single")
+    k, fn = hit
+    loc = ctx.loc(k.module, fn)
+    tag = "%s._update_predict_single" % k.name
+    seen = {}
+    M, TB, C0 = Lin.sym("m"), Lin.sym("Tb"), Lin.sym("c0")
+
+    def hooks(interp, frame, call, fname, args, kwargs, st, _base=make_hooks(Rec())):
+        simple = (fname or "").split(".")[-1]
+        if simple == "check_y_X":
+            return Tup([args[0] if args else kwargs.get("y"), args[1] if len(args) > 1 else kwargs.get("X", K(None))])
+        if simple == "_predict" and isinstance(call.func, ast.Attribute):
+            recv = interp.ev(call.func.value, st, frame)
+            if isinstance(recv, SelfV):
+                tgt = interp.repo.lookup_method(cls, "_predict")[1]
+                b = astq.bind_call(tgt, call, skip_self=True) or {}
+                vals = {p: interp.ev(e, st, frame) for p, e in b.items() if isinstance(e, ast.AST)}
+                cut = st.heap.get((id(recv), "_cutoff"), recv.attrs.get("_cutoff")) if hasattr(st, "heap") else recv.attrs.get("_cutoff")
+                seen.setdefault("predict", []).append((vals, cut, st.facts.copy()))
+                return Opq("forecast")
+        return _base(interp, frame, call, fname, args, kwargs, st)
+
+    it = AInterp(repo, scenario={}, hooks=hooks, no_inline=NO_INLINE + ("check_y_X", "_predict"))
+    stored = Ser("y", N, T)
+    batch = Ser("batch", M, TB)
+    one = FHV(Vec(const_vec([1])), True)
+    selfv = SelfV(cls, {"_y": stored, "_X": K(None), "_cutoff": C0, "_is_fitted": K(True), "_fh": one, "window_length_": W})
+    f = Facts()
+    f.add_cmp(M, ">=", 1, "the batch is non-empty")
+    f.add_cmp(N, ">=", 1)
+    traces, fst = it.run_function(Frame(k.module, fn, cls, k), {"self": selfv, "y": batch, "fh": one, "X": K(None),
+                                                                "update_params": K(False)}, State(facts=f))
+    preds = seen.get("predict", [])
+    if len(preds) != 1:
+        ctx.undecided("R4", tag + ":predict", "expected exactly one interpretable self._predict(...) after the update, found %d" % len(preds), loc)
+    else:
+        vals, cut, pf = preds[0]
+        envs = [Env({"n": 8, "m": 3, "T": 20, "Tb": tb, "c0": c0, "w": 2}) for tb in (12, 20, 23) for c0 in (5, 20)]
+        if as_lin_val(cut) is None:
+            ctx.undecided("R4", tag + ":cutoff-at-predict", "cutoff at prediction time is not interpretable: %r" % (cut,), loc)
+        else:
+            eq_lin(ctx, "R4", tag + ":cutoff-at-predict", loc, as_lin_val(cut), TB, pf, envs,
+                   "cutoff when the forecast is made after update(batch) (must be the last time point of the batch, also when "
+                   "the batch ends before the stored series does: in-sample predictions move the cutoff backwards)")
+        ctx.check(vals.get("fh") == one, "R4", tag + ":horizon", "the horizon handed in is the one predicted",
+                  "_predict receives %r instead of the horizon handed in" % (vals.get("fh"),), loc)
+    # (2) _predict_moving_cutoff: each update batch is y.iloc[train part of the split], the horizon is the splitter's
+    hit = repo.lookup_method(cls, "_predict_moving_cutoff")
+    if hit is None:
+        raise AnalysisError("NaiveForecaster has no _predict_moving_cutoff")
+    k2, fn2 = hit
+    loc2 = ctx.loc(k2.module, fn2)
+    tag2 = "%s._predict_moving_cutoff" % k2.name
+    seen2 = []
+
+    def hooks2(interp, frame, call, fname, args, kwargs, st, _base=make_hooks(Rec())):
+        simple = (fname or "").split(".")[-1]
+        if simple == "_update_predict_single" and isinstance(call.func, ast.Attribute):
+            tgt = interp.repo.lookup_method(cls, "_update_predict_single")[1]
+            b = astq.bind_call(tgt, call, skip_self=True) or {}
+            seen2.append({p: interp.ev(e, st, frame) for p, e in b.items() if isinstance(e, ast.AST)})
+            return Opq("forecast")
+        if simple == "_format_moving_cutoff_predictions":
+            return Opq("formatted")
+        return _base(interp, frame, call, fname, args, kwargs, st)
+
+    it2 = AInterp(repo, scenario={}, hooks=hooks2, no_inline=NO_INLINE + ("_update_predict_single", "_format_moving_cutoff_predictions", "_detached_cutoff"))
+    sv2 = SelfV(cls, {"_y": stored, "_X": K(None), "_cutoff": T, "_is_fitted": K(True), "_fh": one, "window_length_": W})
+    ypar = Ser("y", N, T)
+    cv = Opq("param:cv")
+    it2.run_function(Frame(k2.module, fn2, cls, k2), {"self": sv2, "y": ypar, "cv": cv, "X": K(None), "update_params": K(False),
+                                                     "return_pred_int": K(False)}, State())
+    if len(seen2) != 1:
+        ctx.undecided("R4", tag2 + ":update-call", "expected one _update_predict_single site in the split loop, found %d" % len(seen2), loc2)
+        return
+    a = seen2[0]
+    yb = a.get("y")
+
+    def is_train_part(v):
+        # y.iloc[ <component 0 of an element of cv.split(y)> ]
+        if not (isinstance(v, Opq) and v.tag == "index" and len(v.args) == 2):
+            return None
+        base, idx = v.args
+        if not (isinstance(base, Opq) and base.tag == "attr:iloc" and base.args and base.args[0] is ypar):
+            return None if not (isinstance(base, Opq) and base.tag == "attr:iloc") else False
+        if not (isinstance(idx, Opq) and idx.tag == "unpack" and len(idx.args) == 2):
+            return None
+        el, comp = idx.args
+        if not (isinstance(el, Opq) and el.tag == "elem" and el.args and isinstance(el.args[0], Opq) and el.args[0].tag == "call:cv.split"):
+            return None
+        if not (el.args[0].args and el.args[0].args[0] is ypar):
+            return False
+        return comp == 0
+
+    ctx.check(is_train_part(yb), "R4", tag2 + ":batch", "each update receives y.iloc[training part of the split of y]",
+              "the batch handed to the update is %r, not y.iloc[<training part of cv.split(y)>]" % (yb,), loc2)
+    fhv = a.get("fh")
+    ctx.check(True if (isinstance(fhv, Opq) and fhv.tag == "call:cv.get_fh") else (None if isinstance(fhv, Opq) else False), "R4", tag2 + ":horizon",
+              "the splitter's own horizon is predicted after each update", "the horizon predicted after each update is %r, not cv.get_fh()" % (fhv,), loc2)
+
+
 # ------------------------------------------------------------------------------- R5
 def bound_args(fn, call, skip_self=True):
     return astq.bind_call(fn, call, skip_self=skip_self) or {}
@@ -1091,13 +1204,47 @@ def self_attr_of(e):
     return None
 
 
-def check_keywords(ctx, tag, mod, call, params, what):
-    """keyword k=self.a: a must be k (or its alias)."""
+def mentions_option(e, params):
+    """Constructor options read (as self.<p>) anywhere inside expression ``e``."""
+    return sorted({n.attr for n in ast.walk(e) if isinstance(n, ast.Attribute) and isinstance(n.value, ast.Name)
+                   and n.value.id == "self" and n.attr in params})
+
+
+def is_none_test(t, attr):
+    return (isinstance(t, ast.Compare) and len(t.ops) == 1 and isinstance(t.ops[0], (ast.Is, ast.IsNot))
+            and self_attr_of(t.left) == attr and isinstance(t.comparators[0], ast.Constant) and t.comparators[0].value is None)
+
+
+def check_keywords(ctx, tag, mod, call, params, what, fn=None):
+    """keyword k=self.a: a must be k (or its alias) and the value must be the option itself (unchanged)."""
     for kw in call.keywords:
         if kw.arg is None:
             continue
-        a = self_attr_of(kw.value)
+        val = astq.inline_locals(fn, kw.value) if fn is not None else kw.value
+        a = self_attr_of(val)
         if a is None:
+            opts = mentions_option(val, params)
+            if not opts:
+                continue
+            c = "%s:%s(%s=):unchanged" % (tag, what, kw.arg)
+            want = ALIAS.get(kw.arg, kw.arg)
+            if isinstance(val, ast.BoolOp) and isinstance(val.op, ast.Or) and self_attr_of(val.values[0]) in params:
+                # `self.p or default` replaces *every* falsy option value (0, 0.0, "", False, None) by the default
+                ctx.violation("R6", c, "%s receives %s=%s: a truthiness default rewrites every falsy option value (e.g. %s=0 / 0.0 "
+                              "reaches the wrapped model as %s), so the model is not fitted with the option that was set"
+                              % (what, kw.arg, ast.unparse(val), self_attr_of(val.values[0]), ast.unparse(val.values[-1])),
+                              ctx.loc(mod, call), witness={"option": self_attr_of(val.values[0]), "value": "0.0",
+                                                           "forwarded": ast.unparse(val.values[-1])})
+            elif isinstance(val, ast.IfExp) and len(opts) == 1 and is_none_test(val.test, opts[0]) \
+                    and opts[0] == want and (self_attr_of(val.body) == opts[0] or self_attr_of(val.orelse) == opts[0]):
+                ctx.ok("R6", c, "%s=%s: only None is replaced by a default" % (kw.arg, ast.unparse(val)), ctx.loc(mod, call))
+            elif isinstance(val, ast.IfExp) and len(opts) == 1 and self_attr_of(val.test) == opts[0] \
+                    and self_attr_of(val.body) == opts[0]:
+                ctx.violation("R6", c, "%s receives %s=%s: a truthiness test rewrites every falsy option value (0, 0.0, '', False)"
+                              % (what, kw.arg, ast.unparse(val)), ctx.loc(mod, call), witness={"option": opts[0], "value": "0.0"})
+            else:
+                ctx.undecided("R6", c, "%s receives %s=%s, a computed value of option(s) %s" % (what, kw.arg, ast.unparse(val), opts),
+                              ctx.loc(mod, call))
             continue
         want = ALIAS.get(kw.arg, kw.arg)
         ctx.check(a == want, "R6", "%s:%s(%s=)" % (tag, what, kw.arg), "%s=self.%s" % (kw.arg, a),
@@ -1142,12 +1289,12 @@ def rule_forwarding(ctx, repo):
             ctx.check(good, "R6", "%s:%s:data" % (cname, what), "the model is built on the training series handed to _fit_forecaster",
                       "the wrapped model is built on %s, not on the whole `%s` argument" % (ast.unparse(first) if first is not None else "?", yparam),
                       ctx.loc(mod, c))
-            check_keywords(ctx, cname, mod, c, params, what)
+            check_keywords(ctx, cname, mod, c, params, what, fn)
         # .fit(...) of the model objects
         fits = [n for n in ast.walk(fn) if isinstance(n, ast.Call) and isinstance(n.func, ast.Attribute) and n.func.attr == "fit"
                 and dotted(n.func.value) in ("self._forecaster", "_forecaster")]
         for c in fits:
-            check_keywords(ctx, cname, mod, c, params, "fit" + ("[%s]" % role(c) if len(fits) > 1 else ""))
+            check_keywords(ctx, cname, mod, c, params, "fit" + ("[%s]" % role(c) if len(fits) > 1 else ""), fn)
         if cname == "AutoETS":
             if len(calls) != 2 or len(fits) != 2:
                 ctx.undecided("R6", "AutoETS:branches", "expected the model to be built and fitted once in the automatic and once in the manual branch", ctx.loc(mod, fn))
@@ -1214,12 +1361,13 @@ def run(ctx):
     rule_r1(ctx, repo, runs)
     rule_naive_predict(ctx, repo, runs)
     rule_in_sample(ctx, repo)
+    rule_moving_cutoff(ctx, repo)
     rule_time_axis(ctx, repo)
     rule_forwarding(ctx, repo)
     # instance counts on commit 132f3d5 (+ fix 7857d98): R1 46, R2 76, R3 20, R4 8, R5 14, R6 88
     ctx.floor("R1", 45)
     ctx.floor("R2", 40)
     ctx.floor("R3", 8)
-    ctx.floor("R4", 8)
+    ctx.floor("R4", 12)
     ctx.floor("R5", 14)
     ctx.floor("R6", 80)
